@@ -41,6 +41,9 @@ type Profile struct {
 	// EDSFaults: probability that a write of the EDS controller to the ExtendedDaemonSet object
 	// (status update or spec update) is rejected
 	EDSFaults float64
+	// RSFaults: probability that a replica-set create/delete issued by the ExtendedDaemonSet controller is
+	// rejected or applied with its answer lost
+	RSFaults float64
 	// Burst: extra weight of back-to-back replica-set reconcile requests at +0 / +0.4s / freq-1s
 	Burst float64
 	// Nested: N-mode yield probability per API call (0 = atomic reconciles, schedule S)
@@ -193,15 +196,18 @@ func (e *Sim) Run(ctx *core.Ctx, idx int) {
 	for i := 0; i < nNodes; i++ {
 		w.AddNode(genNode(r, fmt.Sprintf("n%d", i)))
 	}
-	if e.P.PodFaults > 0 || e.P.EDSFaults > 0 {
+	if e.P.PodFaults > 0 || e.P.EDSFaults > 0 || e.P.RSFaults > 0 {
 		fr := rand.New(rand.NewSource(r.Int63()))
-		pf, ef := e.P.PodFaults, e.P.EDSFaults
+		pf, ef, rf := e.P.PodFaults, e.P.EDSFaults, e.P.RSFaults
 		w.S.Fault = func(c *simapi.Call) simapi.FaultKind {
 			if w.Coop || w.faultsSuspended > 0 {
 				return simapi.NoFault
 			}
 			if c.Kind == simapi.KindPod && (c.Verb == "create" || c.Verb == "delete") && fr.Float64() < pf {
 				return simapi.Reject
+			}
+			if c.Kind == simapi.KindERS && (c.Verb == "create" || c.Verb == "delete") && c.Actor == "eds-controller" && fr.Float64() < rf {
+				return []simapi.FaultKind{simapi.Reject, simapi.LostReply}[fr.Intn(2)]
 			}
 			if c.Kind == simapi.KindEDS && c.IsWrite() && c.Actor == "eds-controller" && fr.Float64() < ef {
 				return []simapi.FaultKind{simapi.Reject, simapi.LostReply}[fr.Intn(2)]
